@@ -988,3 +988,10 @@ Theorem C06_per_thread_slots_refuted :
     veq (errfn_ctx bq a order threads d) (errfn_ctx bq a' order threads d).
 Proof. exact slot_variant_refuted. Qed.
 Print Assumptions C06_per_thread_slots_refuted.
+
+(* ... and they are right in the one situation the repository's tests exercise: the call from serial code, range i on thread i *)
+Theorem C06_per_thread_slots_right_from_serial_code :
+  forall (E : Type) (bq : list E -> vec) threads (d : @data E),
+    veq (errfn_slots bq (fun i => i) (nested_order threads d) threads d) (errfn bq threads d).
+Proof. exact (@slots_toplevel_ok). Qed.
+Print Assumptions C06_per_thread_slots_right_from_serial_code.
